@@ -257,7 +257,16 @@ def r2(ctx, chk):
                         raise Unknown(ast.unparse(e)[:40])
                     ev_ = Evaluator(oracle)
                     env = {}
-                    ev_.run([st_ for st_ in f.node.body[:stmt_i] if not (isinstance(st_, ast.Expr) and isinstance(st_.value, ast.Constant))], env)
+                    # only the statements the argument depends on (a backward slice by names): other work done before the call is not
+                    # this obligation's business
+                    need = {x.id for x in ast.walk(calls[0].args[0]) if isinstance(x, ast.Name)} - {"self"}
+                    keep = []
+                    for st_ in reversed(f.node.body[:stmt_i]):
+                        names_ = {x.id for x in ast.walk(st_) if isinstance(x, ast.Name)} - {"self"}
+                        if names_ & need:
+                            keep.append(st_)
+                            need |= names_
+                    ev_.run(list(reversed(keep)), env)
                     got = ev_.ev(calls[0].args[0], env)
                     want = [k_ for k_ in ("day", "month", "year") if not present[k_]]
                     if sorted(got) != sorted(want):
